@@ -121,8 +121,10 @@ Proof.
     assert (Hp : tplain true (select (b_cases (bd s b)) (valueOf s (b_lhs (bd s b)))) = true).
     { apply select_tplain. unfold bd. rewrite Hr. apply (TP b r Hr). }
     apply (matches_mono (next s + 64)); [lia|].
-    apply (matches_old _ s s' b _ _ _ true Hp); [|exact Hm].
-    intros m Hmm Hsc. destruct (Ms m b Hmm Hsc) as (A1&A2&A3&A4). auto.
+    apply (matches_old _ s s' b _ _ _ true Hp); [| |exact Hm].
+    + intros m Hmm Hsc. destruct (Ms m b Hmm Hsc) as (A1&A2&A3&A4). auto.
+    + intros m b1 Hmm Km1. rewrite (Hbd b1); [auto|].
+      pose proof (inv_kinds s IV m Hmm) as Kk1. rewrite Km1 in Kk1. apply Kk1.
 Qed.
 
 (** * creating a top-level node *)
@@ -709,10 +711,17 @@ Proof.
   - intros H. apply PassProofs.forallb_intro. intros [b r] Hr. apply elem_of_map_to_list in Hr. exact (H b r Hr).
 Qed.
 
-Lemma templates_ok_CF s s' : CF s s' -> templates_ok s = true -> templates_ok s' = true.
+Lemma subclosed_parity : subclosed parity_free.
 Proof.
-  rewrite !templates_ok_iff. intros C H b r' Hr. destruct (C b r' Hr) as (r & Hr0 & ->). apply (H b r Hr0).
+  split; [|split; [|split]].
+  - intros f e H. exact H.
+  - intros f e1 e2 H. simpl in H. apply andb_true_iff in H. exact H.
+  - intros c e H. simpl in H. destruct c; try exact H. discriminate.
+  - intros cs e H. simpl in H. apply andb_true_iff in H. exact H.
 Qed.
+
+Lemma templates_ok_CF s s' : CF s s' -> templates_ok s = true -> templates_ok s' = true.
+Proof. rewrite !templates_ok_iff. intros C H. apply (C parity_free subclosed_parity H). Qed.
 
 Theorem stepB_templates s o s' :
   Inv s -> ValInvB s -> Tplain s -> histB_op o = true -> parity_op o = true ->
@@ -829,4 +838,28 @@ Proof.
   assert (H : match histB_run (init 64) exH_ops with Some _ => true | None => false end = true)
     by (vm_compute; reflexivity).
   destruct (histB_run (init 64) exH_ops) as [s|]; [eauto|discriminate H].
+Qed.
+
+(** * An example with a NESTED bind: the outer bind (over var 0) builds, for input [x], an inner bind
+    over [Return x] whose cases map var 1 or return 7 *)
+Definition exN_ops : list op :=
+  [ NewVar 2 false;                                                              (* 0 *)
+    NewVar 3 false;                                                              (* 1 *)
+    NewBind [TBind [TMap (Aff 1 1) (TOuter 1%nat); TRet 7] TX; TRet 5] 0%nat;    (* bind 2: lhs-change 2, main 3 *)
+    NewMap (Aff 2 0) 3%nat;                                                      (* 4 *)
+    Observe 4%nat;
+    Stabilize [];                  (* outer function runs (x = 2): inner bind created and run in the same pass *)
+    SetVar 1%nat 4;
+    Stabilize [];                  (* only the innermost right-hand side changes *)
+    SetVar 0%nat 3;
+    Stabilize [];                  (* outer swap to [Return 5]: the nested generation is discarded *)
+    SetVar 0%nat 4;
+    Stabilize [];                  (* outer swap back: a new inner bind *)
+    Stabilize [] ].
+
+Lemma exN_runs : exists s, histB_run (init 64) exN_ops = Some s.
+Proof.
+  assert (H : match histB_run (init 64) exN_ops with Some _ => true | None => false end = true)
+    by (vm_compute; reflexivity).
+  destruct (histB_run (init 64) exN_ops) as [s|]; [eauto|discriminate H].
 Qed.
